@@ -76,9 +76,53 @@ func dupOf(reqs []string) string {
 	return ""
 }
 
+// manyDocsWorld: one definition that refers to n external documents, each from two places.
+func manyDocsWorld(n int) *gen.World {
+	props := map[string]interface{}{}
+	w := &gen.World{Root: gen.RootURL, Features: map[string]int{"many-documents-world": 1}, Docs: map[string]interface{}{}}
+	for i := 0; i < n; i++ {
+		u := fmt.Sprintf("file:///w/a/many/doc%03d.json", i)
+		w.Docs[u] = map[string]interface{}{"definitions": map[string]interface{}{"d": map[string]interface{}{"title": fmt.Sprintf("doc %d", i), "type": "object"}}}
+		props[fmt.Sprintf("a%03d", i)] = map[string]interface{}{"$ref": fmt.Sprintf("many/doc%03d.json#/definitions/d", i)}
+		props[fmt.Sprintf("b%03d", i)] = map[string]interface{}{"$ref": fmt.Sprintf("file:///w/a/many/doc%03d.json#/definitions/d", i)}
+	}
+	w.Docs[gen.RootURL] = map[string]interface{}{"swagger": "2.0", "info": map[string]interface{}{"title": "t", "version": "1"}, "paths": map[string]interface{}{},
+		"definitions": map[string]interface{}{"big": map[string]interface{}{"title": "big", "properties": props}}}
+	w.Slots = 2 * n
+	return w
+}
+
 func c18Run(env *core.Env, idx int) core.CaseResult {
 	var res core.CaseResult
 	rng := core.Rng(env.Seed, "C18", idx)
+	if idx < 3 {
+		// a reference graph with many documents: whatever bookkeeping the cache does must scale with it
+		w := manyDocsWorld([]int{70, 100, 150}[idx])
+		res.Hash = fmt.Sprintf("many-docs/%d", idx)
+		res.NonTrivial = true
+		res.Count("many-documents-world", 1)
+		for _, mode := range []string{"no-cache", "library-cache", "ExpandSpec"} {
+			var got c18Run1
+			switch mode {
+			case "no-cache":
+				got = c18Expand(w, "big", nil, nil, false)
+			case "library-cache":
+				got = c18Expand(w, "big", spec.VerifNewDefaultCache(), nil, false)
+			default:
+				r := runExpandSpec(w, expandOpts{})
+				got = c18Run1{err: r.Err, pan: r.Panic, requests: r.Requests}
+			}
+			res.Evals++
+			wit := map[string]interface{}{"world": fmt.Sprintf("root with one definition referring to %d external documents, each twice", len(w.Docs)-1), "mode": mode, "requests": len(got.requests)}
+			if got.err != nil || got.pan != "" {
+				res.Violate("many-documents: expansion fails ("+mode+")", fmt.Sprintf("%v %s", got.err, got.pan), wit)
+			} else if d := dupOf(got.requests); d != "" {
+				res.Violate("document-requested-twice (many documents, "+mode+")", fmt.Sprintf("%s requested twice; %d requests for %d documents", d, len(got.requests), len(w.Docs)-1), wit)
+			}
+		}
+		res.Sample = map[string]interface{}{"documents": len(w.Docs)}
+		return res
+	}
 	o := gen.WorldOpts{NDocs: 2 + rng.Intn(4), Cyclic: rng.Intn(2) == 0, Nested: rng.Intn(2) == 0, Chains: rng.Intn(3) == 0, HTTP: rng.Intn(3) == 0,
 		Elements: 2 + rng.Intn(2), MaxDepth: 1 + rng.Intn(2), RefDensity: []float64{0.5, 0.7}[rng.Intn(2)]}
 	w := gen.GenWorld(rng, o)
@@ -302,7 +346,7 @@ func init() {
 		Run:      c18Run,
 		Floors: func(env *core.Env) []string {
 			return []string{"entry.ExpandSpec", "entry.ExpandSchemaWithBasePath", "cache.fresh-library", "cache.fresh-wrapped", "cache.preloaded-subset", "cache.reused-library", "cache.reused-wrapped",
-				"cache.after-loader-fault", "cache-sets-observed"}
+				"cache.after-loader-fault", "cache-sets-observed", "many-documents-world"}
 		},
 		Assumptions: []string{"pre-loaded entries are generic JSON documents stored under their canonical URL, as the loader would have produced them"},
 	})
